@@ -149,6 +149,7 @@ def check(run):
                         variant="json-quote", key_of=_key, trace_env={"ORACLE": oracle})
     loadfam.replay_load(run, loadfam.namespaced(cases[::5]), "Trace_Plurals", "Trace_Plurals.cfg", build_features=("json", "quote"),
                         variant="json-quote", key_of=lambda c, r: "namespaced;" + _key(c, r), tag="_ns", trace_env={"ORACLE": oracle, "NS": "n1"})
+    loadfam.replay_suppressed(run, cases, "Trace_Plurals", "Trace_Plurals.cfg", _key, trace_env={"ORACLE": oracle})
     run.notes["l2_render_events"] = run_l2(run)
     run.exhaustive = True
     run.assumptions = ["L2: a 14-locale probe (incl. pt / pt-PT, en / en-GB, fr / fr-CA) renders counts 0..=200, 10^3, 10^6, 10^9+1 through td_string!, td!, td_plural!, "
